@@ -333,6 +333,16 @@ func explore(t *testing.T, e Engine, spec Spec, enc *json.Encoder, w *bufio.Writ
 			sum.PerSeedHash[fmt.Sprint(seed)] = res.Hash + ":" + res.Sig + ":" + res.Outcome
 		}
 		bad := len(res.Violations) > 0 || res.Outcome == "harness-panic"
+		if res.Outcome == "budget" && kept < spec.KeepOK+3 {
+			kept++
+			res2 := *res
+			res2.Tape = nil
+			if len(res2.History) > 30 {
+				res2.History = res2.History[len(res2.History)-30:]
+			}
+			enc.Encode(&res2)
+			w.Flush()
+		}
 		if bad {
 			sum.ViolRuns++
 			if violKept < 40 {
@@ -573,6 +583,15 @@ func (r *Run) DrawSched(timeSteps []time.Duration, maxIdle time.Duration, maxSte
 	c.YieldDenom = []int{1, 1, 2, 4}[r.Cfg(4)]
 	c.AdvanceDenom = []int{0, 40, 10, 3}[r.Cfg(4)]
 	c.PlainRange = []int{0, 0, 400, 60, 12}[r.Cfg(5)]
-	r.Res.Config["sched"] = fmt.Sprintf("yield=1/%d advance=1/%d plain=%d", c.YieldDenom, c.AdvanceDenom, c.PlainRange)
+	// a quarter of the runs use the priority-based (PCT) strategy of depth 1-3
+	if r.Cfg(4) == 0 {
+		c.PCT = 1 + r.Cfg(3)
+		c.PCTSteps = []int{40, 150, 600}[r.Cfg(3)]
+	}
+	// ... and another quarter the location-hold strategy
+	if c.PCT == 0 && r.Cfg(3) == 0 {
+		c.HoldOrdinal = 1 + r.Cfg(60)
+	}
+	r.Res.Config["sched"] = fmt.Sprintf("yield=1/%d advance=1/%d plain=%d pct=%d/%d hold=%d", c.YieldDenom, c.AdvanceDenom, c.PlainRange, c.PCT, c.PCTSteps, c.HoldOrdinal)
 	return c
 }
